@@ -231,6 +231,23 @@ type Priv struct {
 func (x *Priv) Self() string             { return renderGo(x) }
 func (e *Echoer) SeePriv(x *Priv) string { return renderGo(x) }
 
+// Doc: a field of the struct itself has the same json name as a field promoted from an embedded struct declared
+// before it (Go selectors and encoding/json pick the outer field); Rev/author have no clash.
+type DocBase struct {
+	Name   string `json:"name"`
+	Author string `json:"author"`
+	Size   int64
+}
+type Doc struct {
+	DocBase
+	Name string `json:"name"`
+	Size int64
+	Rev  int64 `json:"rev"`
+}
+
+func (x *Doc) Self() string            { return renderGo(x) }
+func (e *Echoer) SeeDoc(x *Doc) string { return renderGo(x) }
+
 type regEntry struct {
 	name string
 	mk   func() interface{}
@@ -250,6 +267,8 @@ var regTable = []regEntry{
 	{"engine", func() interface{} { return &Engine{} }},
 	{"car", func() interface{} { return &Car{} }},
 	{"priv", func() interface{} { return &Priv{} }},
+	{"docbase", func() interface{} { return &DocBase{} }},
+	{"doc", func() interface{} { return &Doc{} }},
 }
 
 func registerTypes() {
